@@ -12,6 +12,7 @@ import GridVerif.Props.C01.StripShape
 import GridVerif.Props.C01.Ctor
 import GridVerif.Props.C01.CtorSeries
 import GridVerif.Props.C01.Init
+import GridVerif.Props.C01.Clauses
 
 #print axioms GridVerif.C01.trapezoid_exact
 #print axioms GridVerif.C01.midpoint_exact
@@ -155,3 +156,7 @@ import GridVerif.Props.C01.Init
 #print axioms GridVerif.C01.trefethenstripcc_ctor_eq_make
 #print axioms GridVerif.C01.trefethengc2_ctor_eq_make
 #print axioms GridVerif.C01.trefethenstripgc2_ctor_eq_make
+#print axioms GridVerif.C01.gausslaguerre_gen_exact
+#print axioms GridVerif.C01.init_ok_eq
+#print axioms GridVerif.C01.trefethenstripgeneral_gen_clause
+#print axioms GridVerif.C01.trefethengeneral_gen_clause
